@@ -295,6 +295,7 @@ def operations():
         "mean_grp": lambda a: a.hdc.algo.mean_grp(np.array([0, 1, 0, 1, 2, 2], dtype="int16")),
         "rolling_sum": lambda a: a.hdc.rolling.sum(3),
         "zonal_mean": lambda a: a.hdc.zonal.mean(zones, [0, 1, 2]),
+        "zonal_mean_f64": lambda a: a.hdc.zonal.mean(zones, [0, 1, 2], dtype="float64", dim_name="zz", name="zm"),
     }
     return da, O
 
@@ -385,7 +386,7 @@ def _dasksched_task(task, p):
 FLOAT_DTYPES = {
     "whits": ("float64", "float32"), "whits_sg_p": ("float64",), "whitsvc": ("float64", "float32"), "whitsvc_p": ("float64",),
     "whitswcv": ("float64",), "whitswcv_p_robust": ("float64",), "spi": ("float64", "float32"), "spi_groups": ("float32",),
-    "mktrend": ("float32",), "mean_grp": ("float32", "int64"), "rolling_sum": ("float32", "int64"), "zonal_mean": ("float32", "float64"),
+    "mktrend": ("float32",), "mean_grp": ("float32", "int64"), "rolling_sum": ("float32", "int64"), "zonal_mean": ("float32", "float64"), "zonal_mean_f64": ("float32",),
 }
 FEW_CHUNKINGS = [((3,), (4,)), ((1, 1, 1), (1, 1, 1, 1)), ((2, 1), (2, 2)), ((1, 2), (3, 1))]
 
@@ -745,7 +746,7 @@ def run(ctx):
         for dt in FLOAT_DTYPES.get(name, ()):
             tasks.append(("config", (name, all_orders, scheds[:1] if not ctx.thorough() else scheds[:2], dt)))
         tasks.append(("time_chunk", name))
-        if name in ("zonal_mean", "whits_sg_p", "whitsvc_lc"):
+        if name in ("zonal_mean", "zonal_mean_f64", "whits_sg_p", "whitsvc_lc"):
             continue   # zonal statistics aggregate over pixels by definition; per-pixel auxiliary rasters are tied to the 3x4 grid
         for lo in (range(0, 720, 180) if ctx.thorough() else range(0, 720, 240)):
             tasks.append(("perm", (name, lo, lo + (180 if ctx.thorough() else 60))))
